@@ -57,21 +57,21 @@ impl Engine for St {
         let t = tier == "thorough";
         let p = |s: &str, q: u64, th: u64| (s.to_string(), if t { th } else { q });
         match prop {
-            "C05" => vec![p("io.trunc", 5000, 60000), p("io.read_err", 5000, 60000), p("io.read_benign", 15000, 500000), p("io.sink_err", 5000, 60000), p("io.sink_benign", 15000, 500000)],
-            "C01" => vec![p("rt.codec", 40000, 1_500_000), p("rt.codec.bias", 10000, 400_000), p("rt.codec.big", 300, 8000)],
-            "C02" => vec![p("rt.container", 40000, 1_500_000), p("rt.container.bias", 8000, 300_000), p("rt.container.big", 200, 6000)],
-            "C03" => vec![p("interop.ours_to_ref", 15000, 500_000), p("interop.ref_to_ours", 8000, 300_000)],
-            "C11" => vec![p("filter.inverse", 20000, 600_000), p("filter.ref", 12000, 400_000), p("bcj2.roundtrip", 6000, 200_000)],
-            "C04" => vec![p("corrupt.bitflip", 500, 8000), p("corrupt.random", 30000, 1_000_000), p("corrupt.field", 20000, 600_000), p("corrupt.nonformat", 10000, 200_000)],
-            "C06" => vec![p("hostile.random", 60000, 3_000_000), p("hostile.mutated", 30000, 1_000_000), p("hostile.fields", 12000, 300_000), p("hostile.params", 12000, 300_000), p("hostile.grammar", 40000, 1_500_000), p("hostile.many", 60, 600)],
-            "C07" => vec![p("history.write", 12000, 300_000), p("history.read", 12000, 300_000)],
-            "C12" => vec![p("concat.xz", 40000, 1_000_000), p("concat.lzip", 20000, 500_000)],
-            "C13" => vec![p("determ.repeat", 12000, 400_000), p("determ.partition", 12000, 400_000)],
-            "C16" => vec![p("exact", 80000, 3_000_000)],
-            "C15" => vec![p("oob.window", 160, 3000), p("oob.encode", 5000, 300_000), p("oob.decode", 25000, 2_000_000), p("oob.direct_bits", 20000, 1_000_000), p("oob.chunkend", 3000, 100_000)],
+            "C05" => vec![p("io.trunc", 5000, 30000), p("io.read_err", 5000, 30000), p("io.read_benign", 15000, 200000), p("io.sink_err", 5000, 30000), p("io.sink_benign", 15000, 200000)],
+            "C01" => vec![p("rt.codec", 40000, 500_000), p("rt.codec.bias", 10000, 150_000), p("rt.codec.big", 300, 3000)],
+            "C02" => vec![p("rt.container", 40000, 500_000), p("rt.container.bias", 8000, 100_000), p("rt.container.big", 200, 2000)],
+            "C03" => vec![p("interop.ours_to_ref", 15000, 200_000), p("interop.ref_to_ours", 8000, 120_000)],
+            "C11" => vec![p("filter.inverse", 20000, 250_000), p("filter.ref", 12000, 150_000), p("bcj2.roundtrip", 6000, 80_000)],
+            "C04" => vec![p("corrupt.bitflip", 500, 4000), p("corrupt.random", 30000, 400_000), p("corrupt.field", 20000, 250_000), p("corrupt.nonformat", 10000, 100_000)],
+            "C06" => vec![p("hostile.random", 60000, 1_000_000), p("hostile.mutated", 30000, 400_000), p("hostile.fields", 12000, 150_000), p("hostile.params", 12000, 150_000), p("hostile.grammar", 40000, 500_000), p("hostile.many", 60, 300)],
+            "C07" => vec![p("history.write", 12000, 120_000), p("history.read", 12000, 120_000)],
+            "C12" => vec![p("concat.xz", 40000, 400_000), p("concat.lzip", 20000, 200_000)],
+            "C13" => vec![p("determ.repeat", 12000, 150_000), p("determ.partition", 12000, 150_000)],
+            "C16" => vec![p("exact", 80000, 1_000_000)],
+            "C15" => vec![p("oob.window", 160, 3000), p("oob.encode", 5000, 100_000), p("oob.decode", 25000, 600_000), p("oob.direct_bits", 20000, 300_000), p("oob.chunkend", 3000, 30_000)],
             "C17" => vec![p("mem.encoder", 1200, 20000), p("mem.decoder.lzma", 4000, 60000), p("mem.decoder.lzma2", 2000, 30000), p("mem.limit", 8000, 100000), p("mem.estimator", 2000, 40000)],
-            "C19" => vec![p("misconfig", 30000, 600_000)],
-            "C18" => vec![p("sizes", 40000, 1_500_000)],
+            "C19" => vec![p("misconfig", 30000, 300_000)],
+            "C18" => vec![p("sizes", 40000, 600_000)],
             _ => vec![],
         }
     }
